@@ -415,7 +415,8 @@ def P : Nat → Mode → List Tok → Option (Expr × List Tok)
     | .name n :: r => some (.part n .nil .nil, r)
     | _ => none
 
-/-- Enough fuel: each token is reached through at most 12 nested calls. -/
+/-- Enough fuel: each token is reached through at most 12 nested calls (proved: `C02.parse_complete`,
+Lemmas/ExprIOFuel.lean). -/
 def fuelFor (ts : List Tok) : Nat := 12 * (ts.length + 1)
 
 def parse (ts : List Tok) : Option Expr :=
